@@ -2,6 +2,7 @@
 import stateworld
 
 PROP_ID = "C06"
+WARMUP_RUNS = 150   # chunks run in fresh forks: kernel signatures must be compiled in the parent
 OWN_PREFIX = "c06."
 
 
@@ -51,3 +52,7 @@ def batch_oracles(merged, mode):
 # reach guard: a full-size batch in which one of these never fired means the workload or the
 # harness has rotted (exit 2, never a pass)
 REQUIRED_REACH = ['coin_force', 'remeasure', 'resample', 'view_operand', 'pivot:standby_stabilizer', 'pivot:standby_destabilizer', 'rank_reduced_by_measurement', 'deterministic_outcome_minus', 'obs_anticommutes_standby_and_active']
+
+
+def warm_extra():
+    stateworld.warm_layouts()
